@@ -298,6 +298,8 @@ pub struct World {
     pub drop_seen_in_call: u32,
     pub collect_depth: u32,
     pub clean_calls: Vec<usize>,
+    /// the action each running `clean()` call was issued for (parallel to `clean_calls`)
+    pub clean_aids: Vec<usize>,
     /// handle-table indices borrowed by an API call in progress: callbacks must not consume them
     pub pinned: Vec<usize>,
     /// targets of the edges of objects dropped in the current call (released by drop glue)
@@ -455,6 +457,7 @@ impl World {
             drop_seen_in_call: 0,
             collect_depth: 0,
             clean_calls: Vec::new(),
+            clean_aids: Vec::new(),
             pinned: Vec::new(),
             glue_targets: Vec::new(),
             ptr_ops_in_callbacks: false,
